@@ -89,7 +89,9 @@ def regrid_cfg(cfg, rg):
     """The configuration after a parameter was un-marked (it stays in the set as a fixed, list-valued parameter) or a
     list-valued fixed parameter was marked for unpacking, on a LIVE runner between two simulate() calls."""
     c = json.loads(json.dumps(cfg))
-    if rg.get("unmark") in c["unpacked"]:
+    if rg.get("reverse_in_hook") in c["unpacked"]:
+        c["unpacked"][rg["reverse_in_hook"]]["values"] = list(reversed(c["unpacked"][rg["reverse_in_hook"]]["values"]))
+    elif rg.get("unmark") in c["unpacked"]:
         spec = c["unpacked"].pop(rg["unmark"])
         c["fixed"][rg["unmark"]] = {"__nd__": list(spec["values"])} if spec.get("array") else list(spec["values"])
     elif rg.get("mark") in c["fixed"]:
@@ -256,6 +258,10 @@ class ScriptedRunner(SimulationRunner):
         return stop_eval(rule, cnt, e._value, e._total, current_rep, skipped, elapsed)
 
     def _on_simulate_start(self):
+        he = getattr(self, "hook_edit", None)
+        if he is not None:
+            self.hook_edit = None
+            self.params.add(he[0], he[1])
         self.w.seams.seam("cb:sim_start")
 
     def _on_simulate_finish(self):
@@ -588,6 +594,14 @@ class World:
             return None
 
         same = bool(inc.get("same_runner")) and self.runner is not None and self.runner_pname == pname
+        live_key = inc.get("live_setitem")
+        if live_key is not None and self.runner is not None and self.runner_pname != pname and live_key in cfg["fixed"]:
+            # the previous runner object lives on; one fixed parameter is changed on it by item assignment
+            self.runner.params[live_key] = plan_val(cfg["fixed"][live_key])
+            self.runner_pname = pname
+            self.runner.pname = pname          # the scripted user program now plays the part written for these parameters
+            same = True
+            bump(self.probes, "parameter_changed_by_item_assignment_on_a_live_runner")
         real_stdout = sys.stdout
         try:
             if line_mode:
@@ -601,7 +615,12 @@ class World:
                 rg = getattr(self, "pending_regrid", None)
                 if rg is not None and same:
                     self.pending_regrid = None
-                    if rg.get("unmark") is not None:
+                    if rg.get("reverse_in_hook") is not None:
+                        # the user program re-orders the sweep in its _on_simulate_start hook (the runner unpacks afterwards)
+                        spec_ = cfg["unpacked"][rg["reverse_in_hook"]]
+                        self.runner.hook_edit = (rg["reverse_in_hook"], np.array(spec_["values"]) if spec_.get("array") else list(spec_["values"]))
+                        bump(self.probes, "grid_reordered_in_the_start_hook")
+                    elif rg.get("unmark") is not None:
                         self.runner.params.set_unpack_parameter(rg["unmark"], False)
                         bump(self.probes, "parameter_unmarked_on_a_live_runner")
                     elif rg.get("mark") is not None and rg["mark"] in cfg["unpacked"]:
@@ -767,7 +786,8 @@ def execute(plan, record_last=False, record_lines=False):
             same = bool(inc.get("same_runner")) and w.runner is not None and w.runner_pname == pname
             rg_ = inc.get("regrid")
             if rg_ and same and cfg.get("results_name") is None and not plan.get("mutating_user") and (
-                    rg_.get("unmark") in cfg["unpacked"] or isinstance(cfg["fixed"].get(rg_.get("mark")), (list, dict))):
+                    rg_.get("unmark") in cfg["unpacked"] or rg_.get("reverse_in_hook") in cfg["unpacked"]
+                    or isinstance(cfg["fixed"].get(rg_.get("mark")), (list, dict))):
                 cfg = w.cfgs[pname] = regrid_cfg(cfg, rg_)
                 w.pending_regrid = rg_
             rep_max = inc.get("set_rep_max") if inc.get("set_rep_max") is not None else (
